@@ -244,7 +244,7 @@ func c03spaces(thorough bool) []c03space {
 	}})
 	// seeds: 2 deviations = all pairs of deletions; for short seeds all pairs of edits over a small alphabet
 	small := []string{"(", ")", "{", "}", ",", ";", "=", "func", "x", "1", "[", "]"}
-	maxShort := 6
+	maxShort := 5
 	if thorough {
 		small = c03sharp
 		maxShort = 10
